@@ -394,7 +394,7 @@ func famNewSID() string {
 	famCallMu.Lock()
 	defer famCallMu.Unlock()
 	famSIDNext++
-	return "sid" + strconv.Itoa(famSIDNext)
+	return fmt.Sprintf("sid%09d", famSIDNext) // fixed width: token sizes must not depend on it
 }
 
 func famRecord(sid, ev string) {
